@@ -448,7 +448,8 @@ def err_free(line):
 TARGET_KINDS = [("file", "g"), ("emptydir", "m"), ("dir", "d"), ("missing", "zz"), ("noparent", "nn/zz"),
                 ("belowfile", "g/zz"), ("root", ""), ("deepfile", "d/f"), ("deepdir", "d/e")]
 ONE_PATH_OPS = ["exists", "metadata", "isfile", "isdir", "readdir", "createdir", "createdirall", "createfile", "appendfile",
-                "openfile", "removefile", "removedir", "removedirall", "readtostring", "setmtime", "walkdir", "probe"]
+                "openfile", "removefile", "removedir", "removedirall", "readtostring", "setmtime", "setctime", "setatime", "walkdir",
+                "probe"]
 TWO_PATH_OPS = ["copyfile", "movefile", "copydir", "movedir"]
 
 
@@ -476,6 +477,8 @@ def matrix_cases(prefix, kinds, rng=None, two_path=True, c01_domain=False, root_
             for tk, tp in TARGET_KINDS:
                 if not root_removal and tk == "root" and opk in ("removedir", "removedirall"):
                     continue      # removing the root itself is outside every property but C13
+                if c01_domain and opk in ("setmtime", "setctime", "setatime"):
+                    continue      # timestamps are C19's subject, not part of the abstract tree
                 if c01_domain and tk == "root" and opk in ("removedir", "removedirall", "removefile", "createfile", "appendfile"):
                     continue      # C01 leaves removing / overwriting the root unspecified
                 c = vfx.Case("%s_mx_%s_%s_%s" % (prefix, kind, opk, tk))
@@ -488,8 +491,9 @@ def matrix_cases(prefix, kinds, rng=None, two_path=True, c01_domain=False, root_
                     h = c.op(opk, _ps(t, tp)); c.op("hwrite", h, vfx.hexs(b"NEW")); c.op("hdrop", h)
                 elif opk == "openfile":
                     h = c.op(opk, _ps(t, tp)); c.op("hreadtoend", h); c.op("hdrop", h)
-                elif opk == "setmtime":
+                elif opk in ("setmtime", "setctime", "setatime"):
                     c.op(opk, _ps(t, tp), TIMES[1])
+                    c.op("metadata", _ps(t, tp))
                 else:
                     c.op(opk, _ps(t, tp))
                 c.op("snap", t)
@@ -526,6 +530,37 @@ def matrix_cases(prefix, kinds, rng=None, two_path=True, c01_domain=False, root_
                     for w in g.watch:
                         c.op("snap", w)
                     cases.append(c)
+    return cases
+
+
+def reader_seek_cases(prefix, kinds, rng=None):
+    """read handles driven to and over the edges: relative seeks before the start, to and past the end, reads there"""
+    rng = rng or random.Random(13)
+    cases = []
+    scripts = [
+        [("s", 4), ("c", -5), ("read", 99)], [("s", 7), ("e", -11), ("read", 99)], [("e", 0), ("read", 4), ("c", -3), ("read", 9)],
+        [("s", 10), ("read", 1), ("s", 11), ("read", 1), ("c", -11), ("c", -12), ("read", 3)],
+        [("e", 5), ("read", 2), ("e", -10), ("read", 2), ("c", 0)], [("read", 3), ("c", -4), ("c", -3), ("read", 99)],
+    ]
+    for kind in kinds:
+        for i, sc in enumerate(scripts):
+            c = vfx.Case("%s_rseek_%s_%d" % (prefix, kind, i))
+            g = build_config(c, kind, rng)
+            c.cfg = g
+            t = g.target
+            write_file(c, t, "f", b"0123456789")
+            c.op("snap", t)
+            c.first_snap = c.nops - 1
+            h = c.op("openfile", vfx.ps(t, "f"))
+            for (k, v) in sc:
+                if k == "read":
+                    c.op("hreadn", h, v)
+                else:
+                    c.op("hseek", h, k, v)
+            c.op("hreadtoend", h)
+            c.op("hdrop", h)
+            c.op("snap", t)
+            cases.append(c)
     return cases
 
 
